@@ -57,6 +57,7 @@ var Registry = map[string]func(c *Ctx, arg string) error{
 		}
 		if arg == "retrieve" {
 			RunRetrieve(c)
+			RunRetrieveBackPressure(c)
 			return nil
 		}
 		if arg == "adversary" {
